@@ -11,22 +11,24 @@ Open Scope N_scope.
 
 (* The headline.  For every schema (any number of fields below 65535, on either side of the fixmap/map16
    boundary), every configuration accepted by VerifyConfig, every record (any bytes, any lengths, on either side of
-   16 / 256 / 65536), and every buffer size B <= 2^32 the event fits in: SerializeRecord does not panic, emits a
+   16 / 256 / 65536), every buffer size B <= 2^32 the event fits in and whatever earlier records left in that
+   buffer: SerializeRecord does not panic, emits a
    non-empty stream, and the independent decoder reads it back as exactly
        [ EventTime ; { visible fields in schema order ..., "environment": { every environment field } } ]
    with nothing left over - visible = non-empty, not environment, not hidden; rewritten fields hold the documented
    result of their chain (inline prefix, unescaped value). *)
 Theorem C10_decode_serialized :
-  forall (schema : list bytes) (cfg : ser_config) (rec : record) (B : nat) (ser : serializer),
+  forall (schema : list bytes) (cfg : ser_config) (rec : record) (B : nat) (ser : serializer) (buffer : bytes),
   verify_config schema cfg = true ->
   (length schema <= length (r_fields rec))%nat ->
   N.of_nat (length schema) < 65535 ->
   N.of_nat (length (c_env cfg)) < 65536 ->
   N.of_nat B <= 4294967296 ->
   new_serializer schema cfg B = Ok ser ->
+  length buffer = B ->
   (length (encode_spec schema cfg rec) < B)%nat ->
   exists stream,
-    serialize_record ser rec = Ok stream /\ stream <> [] /\
+    serialize_record_from ser rec buffer = Ok stream /\ stream <> [] /\
     decode_all stream = Some (event_tree schema cfg rec, []).
 Proof. exact decode_serialized_lemma. Qed.
 Print Assumptions C10_decode_serialized.
@@ -44,22 +46,37 @@ Theorem C10_encode_buf_spec :
 Proof. exact encode_buf_spec_lemma. Qed.
 Print Assumptions C10_encode_buf_spec.
 
-(* 1'. For EVERY buffer size (no "it fits" hypothesis): SerializeRecord is total - it returns a stream or panics, the
-   unescape loop never runs out of fuel -, it panics only when the event is at least as long as the buffer, and a
-   stream it returns is either empty (position == len(buffer): the record is dropped) or the complete event.  A
-   truncated or otherwise malformed event is never emitted. *)
+(* 1'. For EVERY buffer size and EVERY previous contents of the buffer (no "it fits" hypothesis): SerializeRecord is
+   total - it returns a stream or panics, the unescape loop never runs out of fuel -, it panics only when the event
+   is at least as long as the buffer, and a stream it returns is either empty (position == len(buffer): the record
+   is dropped) or the complete event.  A truncated or otherwise malformed event is never emitted. *)
 Theorem C10_never_emits_garbage :
-  forall schema cfg rec B ser,
+  forall schema cfg rec B ser buffer,
   verify_config schema cfg = true ->
   (length schema <= length (r_fields rec))%nat ->
   new_serializer schema cfg B = Ok ser ->
-  match serialize_record ser rec with
+  length buffer = B ->
+  match serialize_record_from ser rec buffer with
   | Ok stream => stream = [] \/ stream = encode_spec schema cfg rec
   | Panic _ => (B <= length (encode_spec schema cfg rec))%nat
   | Err _ => False
   end.
 Proof. exact never_garbage_lemma. Qed.
 Print Assumptions C10_never_emits_garbage.
+
+(* 1''. The serializer reuses one buffer for all records; what it emits does not depend on what earlier records
+   left there (the model run by the correspondence check starts from a zeroed buffer). *)
+Theorem C10_buffer_contents_irrelevant :
+  forall schema cfg rec B ser buffer1 buffer2 stream,
+  verify_config schema cfg = true ->
+  (length schema <= length (r_fields rec))%nat ->
+  new_serializer schema cfg B = Ok ser ->
+  length buffer1 = B -> length buffer2 = B ->
+  stream <> [] ->
+  serialize_record_from ser rec buffer1 = Ok stream ->
+  serialize_record_from ser rec buffer2 = Ok stream.
+Proof. exact buffer_contents_irrelevant_lemma. Qed.
+Print Assumptions C10_buffer_contents_irrelevant.
 
 (* 2. The append-style encoding decodes to the expected event, for all schemas, configurations and records whose
    strings MessagePack can express (shorter than 2^32 bytes; map counts fit 16 bits). *)
